@@ -204,6 +204,11 @@ func checkWrappedComparisons(c *core.Ctx) {
 					var wraps []*ssa.BinOp
 					uRangeOf(cmp.X, 0, &wraps)
 					uRangeOf(cmp.Y, 0, &wraps)
+					if len(wraps) > 0 && borrowIdiom(cmp) {
+						// (a - b - c) > K with K at least the largest unwrapped value and below every
+						// wrapped one: the comparison is exactly "the subtraction borrowed"
+						wraps = nil
+					}
 					st.Ob(len(wraps) == 0)
 					for _, w := range wraps {
 						a, bb := uRangeOf(w.X, 0, nil), uRangeOf(w.Y, 0, nil)
@@ -298,6 +303,41 @@ func checkUnsignedCarry(c *core.Ctx, handlers []handlerRef) {
 				}
 			}
 			st.Ob(bad == 0)
+			// the 32-bit sources are reduced to 32 bits before they are used: an inline constant
+			// such as -1 is delivered sign-extended to 64 bits
+			for _, b := range fn.Blocks {
+				for _, in := range b.Instrs {
+					call, ok := in.(*ssa.Call)
+					if !ok || !(isOperandRead(call, "Src0") || isOperandRead(call, "Src1")) || call.Referrers() == nil {
+						continue
+					}
+					raw := false
+					for _, r := range *call.Referrers() {
+						switch x := r.(type) {
+						case *ssa.DebugRef:
+						case *ssa.Convert:
+							if w, _, ok := typeWidth(x.Type()); !ok || w > 32 {
+								raw = true
+							}
+						case *ssa.BinOp:
+							// masking with a 32-bit constant is a reduction too
+							if x.Op == token.AND {
+								if k, ok := core.ConstInt(x.Y); ok && k >= 0 && k <= 0xffffffff {
+									continue
+								}
+							}
+							raw = true
+						default:
+							raw = true
+						}
+					}
+					st.Instances++
+					st.Ob(!raw)
+					if raw {
+						c.ReportAt("R03.29", fn, call.Pos(), "source-not-reduced-to-32-bits", core.FuncName(fn)+" uses a 32-bit source as the raw 64-bit value ReadOperand returns: the inline constant -1 arrives as 0xFFFFFFFFFFFFFFFF, so the 64-bit sum or difference wraps and the carry / borrow test gives the wrong answer (v_add_co_u32 v0, vcc, -1, 1 reports no carry; v_subb with -1 reports a wrong borrow)")
+					}
+				}
+			}
 		}
 		visit(root, 0)
 	}
@@ -594,4 +634,117 @@ func uniqueStrings(in []string) []string {
 		}
 	}
 	return out
+}
+
+// R03.34: a carry read off a 64-bit sum needs 32-bit addends.
+func checkCarryAddends(c *core.Ctx) {
+	st := c.Rule("R03.34", "a carry-out computed as `sum > 0xFFFFFFFF` (or an equivalent test of bit 32) is computed from addends that are bounded by 2^32-1: in both ALUs, every addend of a sum that is compared with MaxUint32 has a bounded interval (a conversion through uint32, a mask, a one-bit carry); a raw 64-bit ReadOperand value is not bounded - the inline constant -1 is read as 0xFFFFFFFFFFFFFFFF, so `v_add_co_u32 v0, vcc, -1, v1` wraps the 64-bit sum and reports no carry", 6)
+	max32 := new(big.Int).SetUint64(0xffffffff)
+	isMax32 := func(v ssa.Value) bool {
+		k, ok := v.(*ssa.Const)
+		if !ok || k.Value == nil || k.Value.Kind() != constant.Int {
+			return false
+		}
+		u, exact := constant.Uint64Val(k.Value)
+		return exact && u == 0xffffffff
+	}
+	var leaves func(v ssa.Value, out *[]ssa.Value, d int)
+	leaves = func(v ssa.Value, out *[]ssa.Value, d int) {
+		if bo, ok := v.(*ssa.BinOp); ok && bo.Op == token.ADD && d < 6 {
+			leaves(bo.X, out, d+1)
+			leaves(bo.Y, out, d+1)
+			return
+		}
+		*out = append(*out, v)
+	}
+	for _, rel := range []string{emuPkg, cdna3Pkg} {
+		for _, fn := range c.SrcFuncs(rel) {
+			for _, b := range fn.Blocks {
+				for _, in := range b.Instrs {
+					cmp, ok := in.(*ssa.BinOp)
+					if !ok {
+						continue
+					}
+					var sum ssa.Value
+					switch {
+					case cmp.Op == token.GTR && isMax32(cmp.Y):
+						sum = cmp.X
+					case cmp.Op == token.LSS && isMax32(cmp.X):
+						sum = cmp.Y
+					default:
+						continue
+					}
+					add, ok := sum.(*ssa.BinOp)
+					if !ok || add.Op != token.ADD {
+						continue
+					}
+					if bits, isU := uTypeBits(add.Type()); !isU || bits != 64 {
+						continue
+					}
+					st.Instances++
+					c.MarkAnalysed(fn)
+					var ls []ssa.Value
+					leaves(add, &ls, 0)
+					bad := ""
+					for _, l := range ls {
+						r := uRangeOf(l, 0, nil)
+						if r.top || r.hi.Cmp(max32) > 0 {
+							bad = l.Name()
+							if call, ok := l.(*ssa.Call); ok && call.Call.IsInvoke() {
+								bad = call.Call.Method.Name() + "(...)"
+							}
+						}
+					}
+					st.Ob(bad == "")
+					if bad != "" {
+						c.ReportAt("R03.34", fn, cmp.Pos(), "carry-from-unbounded-addend", core.FuncName(fn)+" reads the carry off a 64-bit sum whose addend "+bad+" is not reduced to 32 bits first: a negative inline constant is delivered sign-extended to 64 bits, the sum wraps, and 0xFFFFFFFF + 1 reports no carry")
+					}
+				}
+			}
+		}
+	}
+}
+
+// borrowIdiom: cmp is `E > K` (or `K < E`) for a constant K and a subtraction chain E
+// over bounded unsigned leaves whose mathematical value lies in [lo, hi] with hi <= K
+// and 2^64 + lo > K: then the unsigned comparison is true exactly when E is negative.
+func borrowIdiom(cmp *ssa.BinOp) bool {
+	var e, k ssa.Value
+	switch cmp.Op {
+	case token.GTR:
+		e, k = cmp.X, cmp.Y
+	case token.LSS:
+		e, k = cmp.Y, cmp.X
+	default:
+		return false
+	}
+	kr := uRangeOf(k, 0, nil)
+	if kr.top || kr.lo.Cmp(kr.hi) != 0 {
+		return false
+	}
+	if bits, ok := uTypeBits(e.Type()); !ok || bits != 64 {
+		return false
+	}
+	var rng func(v ssa.Value, d int) (lo, hi *big.Int, ok bool)
+	rng = func(v ssa.Value, d int) (*big.Int, *big.Int, bool) {
+		if bo, isB := v.(*ssa.BinOp); isB && bo.Op == token.SUB && d < 6 {
+			alo, ahi, ok1 := rng(bo.X, d+1)
+			blo, bhi, ok2 := rng(bo.Y, d+1)
+			if !ok1 || !ok2 {
+				return nil, nil, false
+			}
+			return new(big.Int).Sub(alo, bhi), new(big.Int).Sub(ahi, blo), true
+		}
+		r := uRangeOf(v, 0, nil)
+		if r.top {
+			return nil, nil, false
+		}
+		return r.lo, r.hi, true
+	}
+	lo, hi, ok := rng(e, 0)
+	if !ok {
+		return false
+	}
+	two64 := new(big.Int).Lsh(big.NewInt(1), 64)
+	return hi.Cmp(kr.lo) <= 0 && new(big.Int).Add(two64, lo).Cmp(kr.lo) > 0
 }
